@@ -98,40 +98,37 @@ is_special_domain (const char *start, const char *end)
         label[len] = 0;
 
         if (strncasecmp ("example", label, 8) == 0) {
-            cp = ch + 1;
-            ch = strchr (cp, '.');
+            const char *tld = ch + 1;
+            const char *dot = strchr (tld, '.');
 
-            if (ch == NULL)
-                len = end - cp;
+            if (dot == NULL)
+                len = end - tld;
             else
-                len = ch - cp;
+                len = dot - tld;
 
-            if (len != 3) /* there are only com, net, org */
-                return (NO);
-
-            /* probably reserved example.tld */
-            memcpy (label, cp, len);
-            label[len] = 0;
-            CHECK(example, label);
+            if (len == 3) { /* there are only com, net, org */
+                memcpy (label, tld, len);
+                label[len] = 0;
+                CHECK(example, label);
+            }
         }
     }
-    else { /* probably special or reserved */
-        /* check only the last label */
-        cp = ch + 1;
-        ch = strchr (cp, '.');
 
-        if (ch == NULL)
-            len = end - cp;
-        else
-            len = ch - cp;
+    /* special or reserved: check the last label in any case */
+    cp = ch + 1;
+    ch = strchr (cp, '.');
 
-        if (len < 4 || len > 9 || len == 6 || len == 8)
-            return (NO);
+    if (ch == NULL)
+        len = end - cp;
+    else
+        len = ch - cp;
 
-        memcpy (label, cp, len);
-        label[len] = 0;
-        CHECK(reserved, label);
-    }
+    if (len < 4 || len > 9 || len == 6 || len == 8)
+        return (NO);
+
+    memcpy (label, cp, len);
+    label[len] = 0;
+    CHECK(reserved, label);
 
     return (NO);
 }
